@@ -32,8 +32,9 @@ Lemma encode_char_ascii c : c <= 127 -> Forall (fun b => b <= 127) (jm_encode_ch
 Proof.
   intros Hc. destruct (jm_plain_char c) eqn:P.
   - unfold jm_encode_char. rewrite P. repeat constructor. assumption.
-  - pose proof (not_plain_cases c P) as Hin.
-    repeat (destruct Hin as [<-|Hin]; [vm_compute; repeat constructor; discriminate|]). destruct Hin.
+  - unfold jm_encode_char. rewrite P.
+    assert (Hh : jm_hexdigit (c mod 16) <= 127) by (unfold jm_hexdigit; pose proof (N.mod_lt c 16 ltac:(discriminate)); destruct (c mod 16 <? 10); lia).
+    repeat match goal with |- context [if ?b then _ else _] => destruct b end; repeat constructor; lia.
 Qed.
 
 Lemma encode_high_bytes x : Forall (fun b => 128 <= b /\ b < 256) x -> jm_encode_string x = x.
